@@ -658,7 +658,7 @@ def run_C14(ctx):
                 items.append(rnd.choice(["w 1", "w 2", "wi"]))
         # last flush, acknowledged while the removal may still be pending, then drop and reopen
         hold = rnd.choice([1, 2, 3, 4, 6, 50])
-        items += ["F 1", "w %d" % hold, rnd.choice(["dropheld", "drop"]), "release", "open " + cfg, "G", "R 0 100000"]
+        items += ["F 1", "w %d" % hold, rnd.choice(["dropheld", "drop", "panicheld"]), "release", "open " + cfg, "G", "R 0 100000"]
         last = sim.last()
         if last is not None:
             items += ["P %d %d" % last, "F 1", "wi", "V 4000000000 1", "F 1", "wi", "G"]
